@@ -82,7 +82,7 @@ theorem dotdotdot_const_uses_compiler (k : Kind) (a : Int) (ha : InRange a) :
 /-- A struct declared without `...` (flag `_CFFI_F_CHECK_FIELDS`) realises without error iff
     every field size, every field offset, the total size and the alignment the cdef denotes
     (`natural`: computed from the cdef's field types only) equal the compiler's numbers. -/
-theorem struct_check_iff (fl : Flags) (hc : fl.check = true) (fs : List Fld) (tot al : Int)
+theorem struct_check_iff_core (fl : Flags) (hc : fl.check = true) (fs : List Fld) (tot al : Int)
     (hoff : ∀ f ∈ fs, 0 ≤ f.koffset) (htot : 0 ≤ tot) (hal : 0 ≤ al) :
     (∃ L, realise fl fs tot al = .ok L) ↔
       (∀ f ∈ fs, f.csize = f.ksize) ∧ fs.map (·.koffset) = (natural fl fs).offsets ∧
@@ -116,7 +116,7 @@ theorem struct_check_outcome (fl : Flags) (hc : fl.check = true) (fs : List Fld)
 def exFields : List Fld := [⟨4, 4, 0, 4⟩, ⟨1, 1, 4, 1⟩, ⟨8, 8, 8, 8⟩, ⟨6, 2, 16, 6⟩]
 def exChecked : Flags := ⟨true, false, false⟩
 example : ∃ L, realise exChecked exFields 24 8 = .ok L :=
-  (struct_check_iff exChecked rfl exFields 24 8 (by decide) (by decide) (by decide)).mpr (by decide)
+  (struct_check_iff_core exChecked rfl exFields 24 8 (by decide) (by decide) (by decide)).mpr (by decide)
 -- the cdef says `int c` where the C source has `long c`: rejected
 example : realise exChecked [⟨4, 4, 0, 4⟩, ⟨1, 1, 4, 1⟩, ⟨4, 4, 8, 8⟩, ⟨6, 2, 16, 6⟩] 24 8 = .error .ffiError := by
   decide
@@ -137,7 +137,7 @@ theorem field_size_mismatch_always_rejected (fl : Flags) (fs : List Fld) (tot al
 /-- `struct { …; ...; }` (no `_CFFI_F_CHECK_FIELDS`): provided the declared fields have the C
     fields' sizes and lie inside the C struct, realisation succeeds and the layout *is* the
     compiler's: its offsets, its total size, its alignment — whatever the cdef alone would give. -/
-theorem dotdotdot_uses_compiler (fl : Flags) (hc : fl.check = false) (fs : List Fld) (tot al : Int)
+theorem dotdotdot_uses_compiler_core (fl : Flags) (hc : fl.check = false) (fs : List Fld) (tot al : Int)
     (hsz : ∀ f ∈ fs, f.csize = f.ksize) (hoff : ∀ f ∈ fs, 0 ≤ f.koffset)
     (hfit : ∀ f ∈ fs, fieldEnd f ≤ tot) (htot : 0 ≤ tot) (hal : 0 ≤ al) :
     ∃ c, realise fl fs tot al = .ok ⟨fs.map (·.koffset), tot, al, c⟩ := by
@@ -154,7 +154,51 @@ theorem dotdotdot_uses_compiler (fl : Flags) (hc : fl.check = false) (fs : List 
 -- would put `c` at 0 and `a` at 8 with size 16; the compiler's 8 / 0 / 24 are adopted.
 def exPartial : Flags := ⟨false, false, false⟩
 example : ∃ c, realise exPartial [⟨8, 8, 8, 8⟩, ⟨4, 4, 0, 4⟩] 24 8 = .ok ⟨[8, 0], 24, 8, c⟩ :=
-  dotdotdot_uses_compiler exPartial rfl _ 24 8 (by decide) (by decide) (by decide) (by decide) (by decide)
+  dotdotdot_uses_compiler_core exPartial rfl _ 24 8 (by decide) (by decide) (by decide) (by decide) (by decide)
 example : (natural exPartial [⟨8, 8, 8, 8⟩, ⟨4, 4, 0, 4⟩]).offsets = [0, 8] := by decide
+
+/-! ## from the generated table's flags (packed and non-packed alike) -/
+open CffiVerif.Generated
+
+/-- The `sflags` assembled by `do_realize_lazy_struct_lock_held` (regenerated statements) carries
+    `SF_STD_FIELD_POS` iff the table says `_CFFI_F_CHECK_FIELDS` and `SF_PACKED` iff it says
+    `_CFFI_F_PACKED` — neither bit disturbs the other. -/
+theorem sflags_assembly_faithful (flags : Nat) : flagsOfTable flags = declaredFlags flags :=
+  flagsOfTable_eq_declared flags
+
+/-- A struct/union whose table entry has `_CFFI_F_CHECK_FIELDS` — packed or not, struct or union —
+    realises without error iff every field size, field offset, the total size and the alignment that
+    the cdef denotes *under the declared packing* equal the compiler's numbers. -/
+theorem struct_check_iff (flags : Nat) (hc : hasBit flags StructFlags.F_CHECK_FIELDS = true)
+    (fs : List Fld) (tot al : Int)
+    (hoff : ∀ f ∈ fs, 0 ≤ f.koffset) (htot : 0 ≤ tot) (hal : 0 ≤ al) :
+    (∃ L, realiseTable flags fs tot al = .ok L) ↔
+      (∀ f ∈ fs, f.csize = f.ksize) ∧ fs.map (·.koffset) = (natural (declaredFlags flags) fs).offsets ∧
+      tot = (natural (declaredFlags flags) fs).size ∧ al = ((natural (declaredFlags flags) fs).align : Int) := by
+  unfold realiseTable
+  rw [sflags_assembly_faithful flags]
+  exact struct_check_iff_core (declaredFlags flags) hc fs tot al hoff htot hal
+
+/-- Without `_CFFI_F_CHECK_FIELDS` (`...` in the cdef) the compiler's layout is adopted, packed or not. -/
+theorem dotdotdot_uses_compiler (flags : Nat) (hc : hasBit flags StructFlags.F_CHECK_FIELDS = false)
+    (fs : List Fld) (tot al : Int)
+    (hsz : ∀ f ∈ fs, f.csize = f.ksize) (hoff : ∀ f ∈ fs, 0 ≤ f.koffset)
+    (hfit : ∀ f ∈ fs, fieldEnd f ≤ tot) (htot : 0 ≤ tot) (hal : 0 ≤ al) :
+    ∃ c, realiseTable flags fs tot al = .ok ⟨fs.map (·.koffset), tot, al, c⟩ := by
+  unfold realiseTable
+  rw [sflags_assembly_faithful flags]
+  exact dotdotdot_uses_compiler_core (declaredFlags flags) hc fs tot al hsz hoff hfit htot hal
+
+-- Non-vacuity: `struct { char a; int b; short c; long d; }` declared with packed=True
+-- (flags = CHECK_FIELDS|PACKED = 6) against `__attribute__((packed))`: 0/1/5/7, size 15, alignment 1.
+def exPacked : List Fld := [⟨1, 1, 0, 1⟩, ⟨4, 4, 1, 4⟩, ⟨2, 2, 5, 2⟩, ⟨8, 8, 7, 8⟩]
+example : ∃ L, realiseTable 6 exPacked 15 1 = .ok L :=
+  (struct_check_iff 6 (by decide) exPacked 15 1 (by decide) (by decide) (by decide)).mpr (by decide)
+-- `b` and `c` swapped in the cdef: every field size still agrees, the offsets do not -> rejected
+example : realiseTable 6 [⟨1, 1, 0, 1⟩, ⟨2, 2, 5, 2⟩, ⟨4, 4, 1, 4⟩, ⟨8, 8, 7, 8⟩] 15 1 = .error .ffiError := by decide
+-- the C struct has one more trailing byte than the cdef: only the total size differs -> rejected
+example : realiseTable 6 exPacked 16 1 = .error .ffiError := by decide
+-- the same cdef without packed=True (flags = 2) against the packed C struct: rejected
+example : realiseTable 2 exPacked 15 1 = .error .ffiError := by decide
 
 end CffiVerif.C12
